@@ -154,7 +154,8 @@ impl<'a> PrettyPrinter<'a> {
                     !matches!(child.kind(), SyntaxKind::RightParen | SyntaxKind::Space)
                 })
                 .unwrap_or(children.len().saturating_sub(1));
-            children[i..=j].iter()
+            // `i > j` when there are only spaces between the parens.
+            children.get(i..=j).unwrap_or_default().iter()
         };
         // A trailing line comment must be terminated before the closing paren.
         let ends_with_line_comment = children
